@@ -279,6 +279,7 @@ func PlaySched(beh M) ([]M, error) {
 		return s.settle(a)
 	}
 	started := []string{}
+	partial := map[string]bool{}
 	ok := true
 	for _, sv := range L(beh, "steps") {
 		if !ok {
@@ -320,26 +321,32 @@ func PlaySched(beh M) ([]M, error) {
 		case "KWaitEnd":
 			res = s.settle(a)
 		case "Deliver":
+			if !conns[a].IsIdle() || partial[a] {
+				break // the real execution has left the model's schedule: the connection is not waiting for input
+			}
 			x.Log.Append(mem.Ev{"k": "rel", "a": a})
 			conns[a].Send(qbytes)
 			res = s.settle(a)
 		case "DeliverPart":
+			if !conns[a].IsIdle() || partial[a] {
+				break
+			}
+			partial[a] = true
 			x.Log.Append(mem.Ev{"k": "env", "act": "part", "a": a})
 			conns[a].Send(qbytes[:3])
 			if _, err := conns[a].WaitQuiet(s.StepTimeout); err != nil {
 				res = "stuck"
 			}
 		case "DeliverRest":
+			if !partial[a] {
+				break
+			}
+			partial[a] = false
 			x.Log.Append(mem.Ev{"k": "rel", "a": a})
 			conns[a].Send(qbytes[3:])
 			res = s.settle(a)
 		case "CLoop":
-			if s.settle(a) == "parked" {
-				s.release(a)
-				if _, err := conns[a].WaitQuiet(s.StepTimeout); err != nil {
-					res = "stuck"
-				}
-			}
+			res = step(a) // ends parked at the next hook, or reading the next message
 		case "CloserGo":
 			// autonomous steps: give them a moment to happen (they may be impossible
 			// here when the real execution has left the model's schedule)
